@@ -466,6 +466,15 @@ class Ring:
                 i = self.single_atom(args[0])
                 if i is not None and self.atom_desc[i][:2] == ("fn", "exp"):
                     return self.atom_args[i][0]
+            if "log_form" in rules and len(args) == 1 and not kw:
+                if name == "arcsinh":
+                    u = args[0]
+                    return self.fn("log", [u + self.sqrt(self.const(1) + u * u)])
+                if name == "log" and not args[0].is_zero():
+                    x = args[0]
+                    ix = x.inv()
+                    if ix.key() < x.key():
+                        return -self.atom_R(("fn", "log", (ix.key(),), ()), None, [ix])
             if "domain" in rules and not kw:
                 r = self._domain_rules(name, args)
                 if r is not None:
